@@ -301,3 +301,14 @@ _B44API_RULE = (" ; bep44 engine, application-made items (bep44_api.go): the *It
                 "what a get reply carries must verify under the requested target (oracles forged-item-served, oversized-served:*, wrong-target:served)")
 PROPS["C12"]["rule"] += _B44API_RULE
 PROPS["C13"]["rule"] += " ; bep44 engine: the same histories with items produced and reused through the exported API (see C12, bep44_api.go)"
+
+# query engine, further families (harness/cmd/h/query_more.go)
+_Q_MORE = (" ; query engine (query_more.go): 3..6 (thorough ..16) copies of the genuine reply while the sender is held inside WriteTo / "
+           "QueryResendDelay (the query has taken the first copy and is joining its sender), also paused, straddling the write's and the query's "
+           "return, in the abandonment window and after reply-then-cancel; destination address forms (4-byte / 16-byte IPv4, IPv6, link-local with "
+           "named / numeric / no zone) x datagrams echoing the id from near-miss sources (other port / IP / zone, no zone, IPv6 embeddings of the IPv4 "
+           "address) or from the destination with a near-miss id (script action stray = no event of the model), before / without / after the genuine "
+           "reply, which may come in the other spelling of the same IPv4 address; one query held pending while 65536+64 short-lived queries to the same "
+           "address run on the same server (id wrap-around); every query datagram's id = canonical uvarint of a counter value new to the process")
+PROPS["C07"]["rule"] += _Q_MORE + " (oracles query-completed-by-non-matching-datagram:*, duplicate-reply-affected-query:*, transaction-id-*)"
+PROPS["C14"]["rule"] += _Q_MORE + " (oracles query-did-not-return*, query-panicked:id-wraparound, goroutine-leak:query, transaction-leak, query-process-died:*)"
